@@ -66,7 +66,8 @@ def generate(seed, run, tier):
             # and the first eval forward)
             ops.append({'op': rs.choice(['export', 'summary', 'cost', 'export'])})
         if op['op'] == 'softmax_opts':
-            kw = {'temperature': rs.choice([0.05, 20.0]) if rs.chance(0.2) else round(rs.loguniform(0.05, 20.0), 4),
+            kw = {'temperature': rs.choice([0.05, 20.0]) if rs.chance(0.2) else
+                  (rs.choice([1, 2, 5, 10, 20]) if rs.chance(0.15) else round(rs.loguniform(0.05, 20.0), 4)),
                   'hard': rs.chance(0.5)}
             if cfg['method'] == 'mps':
                 kw['gumbel'] = rs.chance(0.4)
